@@ -109,7 +109,15 @@ fn get_delta_header_size(
         }
         let cmd = delta[*index];
         *index += 1;
-        size |= ((cmd & !0x80) as usize) << i;
+        let bits = (cmd & !0x80) as usize;
+        if bits != 0 {
+            // Shifting by >= usize::BITS panics in debug builds and wraps in
+            // release builds; a size that does not fit cannot be satisfied.
+            if i >= usize::BITS as usize || (bits << i) >> i != bits {
+                return Err("delta size header too large");
+            }
+            size |= bits << i;
+        }
         i += 7;
         if cmd & 0x80 == 0 {
             return Ok(size);
